@@ -299,3 +299,11 @@ func RegisterProto() {
 	protobuf.RegisterResource(TypeA, &A{}) //nolint:errcheck
 	protobuf.RegisterResource(TypeB, &B{}) //nolint:errcheck
 }
+
+// RunAsEnv runs f with every write attributed to the environment.
+func (ip *Interpose) RunAsEnv(f func()) {
+	saved := ip.inEnv
+	ip.inEnv = true
+	f()
+	ip.inEnv = saved
+}
